@@ -104,6 +104,7 @@ end Issuer
 def isBnode : Term → Bool | .bnode _ => true | _ => false
 def isTriple : Term → Bool | .triple _ _ _ => true | _ => false
 def isVar : Term → Bool | .var _ => true | _ => false
+def isIri : Term → Bool | .iri _ => true | _ => false
 
 /-- `iter_spog(quad.spog())` zipped with the position names -/
 def components (q : Quad) : List (Term × Str) :=
@@ -118,8 +119,14 @@ def step2Comp (q : Quad) (m : SMap (List Quad)) (c : Term × Str) : Except Err (
     | .bnode b => .ok (m.upsert b (pushAt q))
     | _ => .ok m
 
+/-- the predicate tests at the head of the step-2 loop, following the source through
+`Gen.predicateMustBeIri` (tools/extractors/c06.py): the shipped code only rejects blank node
+predicates; the only other shape the extractor accepts additionally rejects every non-IRI predicate -/
+def predicateRejected (p : Term) : Bool :=
+  isBnode p || (Gen.predicateMustBeIri && !isIri p)
+
 def step2Quad (m : SMap (List Quad)) (q : Quad) : Except Err (SMap (List Quad)) :=
-  if isBnode q.p then .error .unsupported
+  if predicateRejected q.p then .error .unsupported
   else (components q).foldlM (step2Comp q) m
 
 /-- blank node label → quads mentioning it (once per *occurrence*, as the code pushes) -/
